@@ -17,13 +17,17 @@ package p18
 // This file: the point worlds (extension of the world construction of world_test.go).
 
 import (
+	"bytes"
 	"crypto/sha256"
 	"encoding/base64"
 	"encoding/binary"
+	"encoding/json"
 	"fmt"
 	"math/big"
 	"os"
+	"reflect"
 	"sort"
+	"strings"
 	"sync"
 	"testing"
 	"time"
@@ -32,9 +36,12 @@ import (
 	"github.com/zenon-network/go-zenon/common/crypto"
 	"github.com/zenon-network/go-zenon/common/db"
 	"github.com/zenon-network/go-zenon/common/types"
+	"github.com/zenon-network/go-zenon/rpc/api/embedded"
 	"github.com/zenon-network/go-zenon/vm/constants"
 	"github.com/zenon-network/go-zenon/vm/embedded/definition"
 	"github.com/zenon-network/go-zenon/vm/embedded/implementation"
+
+	ecommon "github.com/ethereum/go-ethereum/common"
 
 	"verifharness/pbt"
 	"verifharness/sim"
@@ -74,6 +81,12 @@ func PointView(t *testing.T, variant int) *View {
 					pointErr[variant] = err
 					return
 				}
+				if miss := scanTruth(v).missing(variant); len(miss) > 0 && attempt < 3 {
+					pointErr[variant] = fmt.Errorf("the world lacks %v", miss)
+					fmt.Fprintf(os.Stderr, "C18: point world %d, attempt %d lacks %v\n", variant, attempt, miss)
+					truthCache.Delete(v)
+					return
+				}
 				pointViews[variant] = v
 				pointErr[variant] = nil
 			})
@@ -87,6 +100,105 @@ func PointView(t *testing.T, variant int) *View {
 		t.Fatalf("C18: point world %d could not be built: %v", variant, pointErr[variant])
 	}
 	return pointViews[variant]
+}
+
+// missing lists the kinds of state a point world is built for and does not hold (the histories are not
+// reproducible bit by bit: proof-of-work nonces make block hashes differ between processes, and with them every
+// order that depends on a hash; the script is repeated with another seed if something essential is missing).
+func (t *Truth) missing(variant int) []string {
+	var out []string
+	need := func(ok bool, what string) {
+		if !ok {
+			out = append(out, what)
+		}
+	}
+	activeNew, revoked, backerOfRevoked := false, map[string]bool{}, false
+	for _, p := range t.Pillars {
+		if p.RevokeTime != 0 {
+			revoked[p.Name] = true
+		} else if p.PillarType == definition.NormalPillarType {
+			activeNew = true
+		}
+	}
+	for _, n := range t.Delegations {
+		if revoked[n] {
+			backerOfRevoked = true
+		}
+	}
+	need(activeNew, "an active pillar registered after genesis")
+	need(len(revoked) > 0, "a revoked pillar")
+	need(backerOfRevoked, "a backer of a revoked pillar")
+	sa, sr := 0, 0
+	for _, s := range t.Sentinels {
+		if s.RevokeTimestamp == 0 {
+			sa++
+		} else {
+			sr++
+		}
+	}
+	need(sa > 0 && sr > 0, "an active and a revoked sentinel")
+	need(len(t.Deposits[types.PillarContract]) > 0 && len(t.Deposits[types.SentinelContract]) > 0, "QSR deposits in the pillar and the sentinel contract")
+	withRewards := 0
+	for _, m := range t.Rewards {
+		for _, r := range m {
+			if r.Znn.Sign() > 0 || r.Qsr.Sign() > 0 {
+				withRewards++
+				break
+			}
+		}
+	}
+	need(withRewards >= 3, "uncollected rewards in three contracts")
+	denied := false
+	for _, allowed := range t.Proxy {
+		denied = denied || !allowed
+	}
+	need(len(t.Htlcs) >= 3 && denied, "three hash time locks and a denied proxy unlock")
+	yes, no, abstain := false, false, false
+	for _, l := range t.Votes {
+		for _, v := range l {
+			yes, no, abstain = yes || v.Vote == definition.VoteYes, no || v.Vote == definition.VoteNo, abstain || v.Vote == definition.VoteAbstain
+		}
+	}
+	need(len(t.Phases) >= 2 && yes && no && abstain, "two phases and yes / no / abstain votes")
+	signed, fresh, redeemed, revokedU, waiting := false, false, false, false, false
+	for _, w := range t.Wraps {
+		signed = signed || w.Signature != ""
+		fresh = fresh || remaining(w.CreationMomentumHeight, uint64(t.Orchestrator.ConfirmationsToFinality), t.V.Frontier) > 0
+	}
+	for _, u := range t.Unwraps {
+		redeemed, revokedU = redeemed || u.Redeemed != 0, revokedU || u.Revoked != 0
+		if p := t.pairOf(u); p != nil && remaining(u.RegistrationMomentumHeight, uint64(p.RedeemDelay), t.V.Frontier) > 0 {
+			waiting = true
+		}
+	}
+	need(signed && fresh, "a signed and a not yet final wrap request")
+	need(redeemed && revokedU && waiting, "a redeemed, a revoked and a not yet redeemable unwrap request")
+	pending := func(m map[string]*definition.TimeChallengeInfo) bool {
+		for _, tc := range m {
+			if !tc.ParamsHash.IsZero() {
+				return true
+			}
+		}
+		return false
+	}
+	need(len(t.Fees) > 0 && pending(t.BridgeTC) && pending(t.LiqTC), "accumulated bridge fees and pending time challenges in bridge and liquidity")
+	need(len(t.LiqInfo.TokenTuples) > 0 && len(t.LiqSec.Guardians) > 0 && !reflect.DeepEqual(t.LiqSec.Guardians, t.BridgeSec.Guardians), "liquidity token tuples and guardians of its own")
+	full, empty := false, false
+	for _, s := range t.Swap {
+		full, empty = full || s.Znn.Sign() > 0 || s.Qsr.Sign() > 0, empty || (s.Znn.Sign() == 0 && s.Qsr.Sign() == 0)
+	}
+	need(full && empty && len(t.Legacy) > 0, "legacy assets (some retrieved) and legacy pillar slots")
+	if variant == 1 {
+		need(swapShare(t.Epoch) < 100, "an epoch in which the legacy assets have decayed")
+	}
+	pooled := false
+	for _, a := range t.V.Users {
+		if f, _, cur, ok := t.plasmaOf(a); ok && f.Sign() > 0 && cur < fusedToPlasma(f) {
+			pooled = true
+		}
+	}
+	need(pooled, "an account whose plasma is partly used by unconfirmed blocks")
+	return out
 }
 
 // PointScriptNotes collects refusals of scripted steps (the world stays usable; shown by the dump).
@@ -510,6 +622,12 @@ func buildPoint(c *pbt.C, variant int) (*View, error) {
 			if err := waitWindow(p.RegistrationTime, constants.PillarEpochLockTime, constants.PillarEpochRevokeTime); err != nil {
 				return nil, err
 			}
+			// (its backers stay behind)
+			submit(u(1), types.PillarContract, types.ZnnTokenStandard, zero, definition.ABIPillars.PackMethodPanic(definition.DelegateMethodName, "VP-gone"), "pillar.Delegate(VP-gone)")
+			submit(sim.ExtraKey(0).Address, types.PillarContract, types.ZnnTokenStandard, zero, definition.ABIPillars.PackMethodPanic(definition.DelegateMethodName, "VP-gone"), "pillar.Delegate(VP-gone) by extra")
+			if err := produce(2); err != nil {
+				return nil, err
+			}
 			submit(p.StakeAddress, types.PillarContract, types.ZnnTokenStandard, zero, definition.ABIPillars.PackMethodPanic(definition.RevokeMethodName, p.Name), "pillar.Revoke VP-gone")
 			if err := produce(2); err != nil {
 				return nil, err
@@ -562,6 +680,29 @@ func buildPoint(c *pbt.C, variant int) (*View, error) {
 	intent("bridge-redeem")
 	intent("bridge-revoke-unwrap")
 	intent("bridge-update-wrap")
+	// the orchestrators' signature arrives for some of the older wrap requests
+	{
+		bst := h.A.Chain.GetFrontierAccountStore(types.BridgeContract).Storage()
+		if reqs, err := definition.GetWrapTokenRequests(bst); err == nil {
+			for i, r := range reqs {
+				if i%4 != 3 || r.Signature != "" {
+					continue
+				}
+				ni, err := definition.GetNetworkInfoVariable(bst, r.NetworkClass, r.ChainId)
+				if err != nil || ni == nil {
+					continue
+				}
+				ca := ecommon.HexToAddress(ni.ContractAddress)
+				msg, err := implementation.GetWrapTokenRequestMessage(r, &ca)
+				if err != nil {
+					continue
+				}
+				if sig, err := tssSign(msg); err == nil {
+					submit(u(i%5), types.BridgeContract, types.ZnnTokenStandard, zero, definition.ABIBridge.PackMethodPanic(definition.UpdateWrapRequestMethodName, r.Id, sig), "bridge.UpdateWrapRequest")
+				}
+			}
+		}
+	}
 	submit(bridgeAdmin(), types.BridgeContract, types.ZnnTokenStandard, zero, definition.ABIBridge.PackMethodPanic(definition.SetTokenPairMethod, uint32(2), uint32(123), types.QsrTokenStandard,
 		"0x7fbdb2315678afecb367f032d93f642f64180aa3", true, true, false, big.NewInt(50), uint32(20), uint32(9), `{"pending":true}`), "bridge.SetTokenPair (challenge only)")
 	submit(bridgeAdmin(), types.BridgeContract, types.ZnnTokenStandard, zero, definition.ABIBridge.PackMethodPanic(definition.ChangeAdministratorMethodName, u(3)), "bridge.ChangeAdministrator (challenge only)")
@@ -1085,6 +1226,1891 @@ func TestC18PointDump(t *testing.T) {
 		v := BigView(t, i)
 		fmt.Fprintf(os.Stderr, "C18: %s: %s\n", v.Name, scanTruth(v).Summary())
 	}
+}
+
+// ---- comparing an answer with the expected value, field by field ------------------------------------------------------
+
+type obj = map[string]interface{}
+
+// emptyList stands for a list without elements, which the apis render as [] or as null depending on how the value
+// was built; both say the same about the chain.
+type emptyList struct{}
+
+func (emptyList) MarshalJSON() ([]byte, error) { return []byte(`[]`), nil }
+
+func decodeJSON(raw []byte) (interface{}, error) {
+	dec := json.NewDecoder(bytes.NewReader(raw))
+	dec.UseNumber()
+	var v interface{}
+	err := dec.Decode(&v)
+	return v, err
+}
+
+func normalize(want interface{}) interface{} {
+	raw, err := json.Marshal(want)
+	if err != nil {
+		panic(fmt.Sprintf("harness: expected value does not marshal: %v", err))
+	}
+	v, err := decodeJSON(raw)
+	if err != nil {
+		panic(err)
+	}
+	return v
+}
+
+func short(v interface{}) string {
+	raw, _ := json.Marshal(v)
+	return clip(raw)
+}
+
+// jsonDiff returns the path of the first difference and a description ("" if the values agree).
+func jsonDiff(path string, got, want interface{}) (string, string) {
+	if l, ok := want.([]interface{}); ok && len(l) == 0 && got == nil {
+		return "", "" // empty list rendered as null
+	}
+	switch w := want.(type) {
+	case map[string]interface{}:
+		g, ok := got.(map[string]interface{})
+		if !ok {
+			return path, fmt.Sprintf("got %s, expected an object %s", short(got), short(want))
+		}
+		keys := make([]string, 0, len(w))
+		for k := range w {
+			keys = append(keys, k)
+		}
+		sort.Strings(keys)
+		for _, k := range keys {
+			gv, ok := g[k]
+			if !ok {
+				return path + "." + k, "field is missing"
+			}
+			if p, msg := jsonDiff(path+"."+k, gv, w[k]); msg != "" {
+				return p, msg
+			}
+		}
+		extra := make([]string, 0)
+		for k := range g {
+			if _, ok := w[k]; !ok {
+				extra = append(extra, k)
+			}
+		}
+		sort.Strings(extra)
+		if len(extra) > 0 {
+			return path + "." + extra[0], fmt.Sprintf("field the oracle does not know: %s", short(g[extra[0]]))
+		}
+		return "", ""
+	case []interface{}:
+		g, ok := got.([]interface{})
+		if !ok {
+			return path, fmt.Sprintf("got %s, expected a list of %d", short(got), len(w))
+		}
+		if len(g) != len(w) {
+			return path, fmt.Sprintf("list of %d elements, the chain holds %d: got %s, expected %s", len(g), len(w), short(got), short(want))
+		}
+		for i := range w {
+			if p, msg := jsonDiff(fmt.Sprintf("%s[%d]", path, i), g[i], w[i]); msg != "" {
+				return p, msg
+			}
+		}
+		return "", ""
+	default:
+		if !reflect.DeepEqual(got, want) {
+			return path, fmt.Sprintf("got %s, the chain says %s", short(got), short(want))
+		}
+		return "", ""
+	}
+}
+
+func topField(path string) string {
+	path = strings.TrimPrefix(path, ".")
+	if strings.HasPrefix(path, "[") {
+		return "element"
+	}
+	for i, r := range path {
+		if r == '.' || r == '[' {
+			return path[:i]
+		}
+	}
+	if path == "" {
+		return "value"
+	}
+	return path
+}
+
+func pk(k Call, what string) string { return "C18/point/" + k.RPCName() + "/" + what }
+
+// point performs the call (directly, and through the server if the case says so) and counts it.
+func (e *Env) point(ns string, svc interface{}, method string, args ...interface{}) (Call, Answer) {
+	k := Call{ns, svc, method, args}
+	e.C.Class("m-" + k.RPCName())
+	e.C.Note("%s on %s", k, e.V.Name)
+	return k, e.Do(k)
+}
+
+// expect compares a successful answer with the expected value.
+func (e *Env) expect(k Call, a Answer, want interface{}) {
+	c := e.C
+	if a.Err != "" {
+		c.Failf(pk(k, "error"), "%s on %s failed (%s); the chain holds %s", k, e.V.Name, a.Err, short(want))
+		return
+	}
+	got, err := decodeJSON(a.JSON)
+	if err != nil {
+		c.Failf(pk(k, "not-json"), "%s: answer is not JSON: %v: %s", k, err, clip(a.JSON))
+		return
+	}
+	if path, msg := jsonDiff("", got, normalize(want)); msg != "" {
+		c.Failf(pk(k, topField(path)), "%s on %s (frontier %d): %s: %s\n  answer:   %s\n  expected: %s", k, e.V.Name, e.V.Frontier, strings.TrimPrefix(path, "."), msg, clip(a.JSON), short(want))
+	}
+}
+
+// expectErr: the documented answer for something the chain does not hold is this error.
+func (e *Env) expectErr(k Call, a Answer, wantErr string, why string) {
+	c := e.C
+	c.Class("not-found " + k.RPCName())
+	if a.Err == "" {
+		c.Failf(pk(k, "answer-for-unknown"), "%s on %s answered %s; %s, the documented answer is the error %q", k, e.V.Name, clip(a.JSON), why, wantErr)
+		return
+	}
+	if wantErr != "" && a.Err != wantErr {
+		c.Failf(pk(k, "error-text"), "%s on %s failed with %q; %s, the documented answer is the error %q", k, e.V.Name, a.Err, why, wantErr)
+	}
+}
+
+const errNonExistent = "data non existent"
+
+func bigS(b *big.Int) string {
+	if b == nil {
+		return "0"
+	}
+	return b.String()
+}
+
+func strList(n int, f func(i int) string) interface{} {
+	if n == 0 {
+		return emptyList{}
+	}
+	out := make([]interface{}, n)
+	for i := range out {
+		out[i] = f(i)
+	}
+	return out
+}
+
+// ---- generators of arguments ----------------------------------------------------------------------------------------
+
+// pick / weighted: like c.Pick / c.Weighted, but (nearly) uniform. rapid's integer ranges favour small values, which
+// with thirty methods and dozens of entities per world would leave most of them to chance; the draw is six bytes
+// that are mixed before they are reduced. (Replay is unaffected: the draw itself is recorded.)
+func (e *Env) pick(label string, n int) int {
+	if n <= 1 {
+		return 0
+	}
+	x := uint64(0)
+	for _, b := range e.C.Bytes(label, 6, 6) {
+		x = x<<8 | uint64(b)
+	}
+	x += 0x9e3779b97f4a7c15
+	x = (x ^ (x >> 30)) * 0xbf58476d1ce4e5b9
+	x = (x ^ (x >> 27)) * 0x94d049bb133111eb
+	x ^= x >> 31
+	return int(x % uint64(n))
+}
+
+func (e *Env) weighted(label string, weights ...int) int {
+	sum := 0
+	for _, w := range weights {
+		sum += w
+	}
+	x := e.pick(label, sum)
+	for i, w := range weights {
+		if x < w {
+			return i
+		}
+		x -= w
+	}
+	return len(weights) - 1
+}
+
+// addrArg: an address of interest for the query (hot), another key of the ring, or anything (contracts, unknown, zero).
+func (e *Env) addrArg(label string, hot []types.Address) types.Address {
+	c := e.C
+	switch e.weighted(label+".src", 6, 3, 3) {
+	case 0:
+		if len(hot) > 0 {
+			c.Class("arg-address-with-state")
+			return hot[e.pick(label+".hot", len(hot))]
+		}
+		fallthrough
+	case 1:
+		c.Class("arg-address-of-the-ring")
+		return e.V.Users[e.pick(label+".user", len(e.V.Users))]
+	default:
+		return e.Addr(label + ".any")
+	}
+}
+
+func sortedAddrs(m map[types.Address]bool) []types.Address {
+	out := make([]types.Address, 0, len(m))
+	for a := range m {
+		out = append(out, a)
+	}
+	sort.Slice(out, func(i, j int) bool { return out[i].String() < out[j].String() })
+	return out
+}
+
+// hashArg: an id the query knows (hot), an id of another kind of entity (cold), one that differs from a known id in
+// one bit, or any hash (block, momentum, unknown, zero).
+func (e *Env) hashArg(label string, hot, cold []types.Hash) types.Hash {
+	c := e.C
+	switch e.weighted(label+".src", 6, 2, 1, 2) {
+	case 0:
+		if len(hot) > 0 {
+			c.Class("arg-id-existing")
+			return hot[e.pick(label+".hot", len(hot))]
+		}
+		fallthrough
+	case 1:
+		if len(cold) > 0 {
+			c.Class("arg-id-of-another-kind")
+			return cold[e.pick(label+".cold", len(cold))]
+		}
+		fallthrough
+	case 2:
+		if len(hot) > 0 {
+			c.Class("arg-id-one-bit-off")
+			h := hot[e.pick(label+".near", len(hot))]
+			h[e.pick(label+".byte", types.HashSize)] ^= 1 << uint(e.pick(label+".bit", 8))
+			return h
+		}
+		fallthrough
+	default:
+		return e.Hash(label + ".any")
+	}
+}
+
+func sortedHashes(in []types.Hash) []types.Hash {
+	out := append([]types.Hash{}, in...)
+	sort.Slice(out, func(i, j int) bool { return out[i].String() < out[j].String() })
+	return out
+}
+
+// nameArg: a registered name, the same name in another case / with a blank / truncated, or an unknown one.
+func (e *Env) nameArg(label string, names []string) string {
+	c := e.C
+	if len(names) == 0 {
+		names = []string{"nobody"}
+	}
+	n := names[e.pick(label+".name", len(names))]
+	switch e.weighted(label+".form", 8, 2, 2, 1, 1, 1, 1) {
+	case 0:
+		c.Class("arg-name-as-registered")
+		return n
+	case 1:
+		c.Class("arg-name-other-case")
+		return strings.ToUpper(n)
+	case 2:
+		c.Class("arg-name-other-case")
+		return strings.ToLower(n)
+	case 3:
+		c.Class("arg-name-with-blank")
+		return n + " "
+	case 4:
+		c.Class("arg-name-truncated")
+		if len(n) > 1 {
+			return n[:len(n)-1]
+		}
+		return ""
+	case 5:
+		c.Class("arg-name-empty")
+		return ""
+	default:
+		c.Class("arg-name-unknown")
+		return fmt.Sprintf("no-such-name-%d", c.Int(label+".unknown", 0, 99))
+	}
+}
+
+// ---- expected objects --------------------------------------------------------------------------------------------------
+
+func tokenObj(ti *definition.TokenInfo) interface{} {
+	if ti == nil {
+		return nil
+	}
+	return obj{"name": ti.TokenName, "symbol": ti.TokenSymbol, "domain": ti.TokenDomain, "totalSupply": bigS(ti.TotalSupply), "decimals": ti.Decimals, "owner": ti.Owner.String(),
+		"tokenStandard": ti.TokenStandard.String(), "maxSupply": bigS(ti.MaxSupply), "isBurnable": ti.IsBurnable, "isMintable": ti.IsMintable, "isUtility": ti.IsUtility}
+}
+
+func rewardObj(a types.Address, r amounts) obj {
+	return obj{"address": a.String(), "znnAmount": bigS(r.Znn), "qsrAmount": bigS(r.Qsr)}
+}
+
+func (t *Truth) breakdown(id types.Hash) obj {
+	var yes, no uint32
+	for _, v := range t.Votes[id] {
+		switch v.Vote {
+		case definition.VoteYes:
+			yes++
+		case definition.VoteNo:
+			no++
+		}
+	}
+	return obj{"id": id.String(), "total": len(t.Votes[id]), "yes": yes, "no": no}
+}
+
+func phaseObj(ph *definition.Phase) obj {
+	return obj{"id": ph.Id.String(), "projectID": ph.ProjectId.String(), "name": ph.Name, "description": ph.Description, "url": ph.Url, "znnFundsNeeded": bigS(ph.ZnnFundsNeeded),
+		"qsrFundsNeeded": bigS(ph.QsrFundsNeeded), "creationTimestamp": ph.CreationTimestamp, "acceptedTimestamp": ph.AcceptedTimestamp, "status": ph.Status}
+}
+
+func (t *Truth) phaseWithVotes(id types.Hash) interface{} {
+	ph := t.Phases[id]
+	if ph == nil {
+		return nil
+	}
+	return obj{"phase": phaseObj(ph), "votes": t.breakdown(id)}
+}
+
+func (t *Truth) projectObj(p *definition.Project) obj {
+	phases := make([]interface{}, len(p.PhaseIds))
+	for i, id := range p.PhaseIds {
+		phases[i] = t.phaseWithVotes(id)
+	}
+	var phaseList interface{} = phases
+	if len(phases) == 0 {
+		phaseList = emptyList{}
+	}
+	return obj{"id": p.Id.String(), "owner": p.Owner.String(), "name": p.Name, "description": p.Description, "url": p.Url, "znnFundsNeeded": bigS(p.ZnnFundsNeeded),
+		"qsrFundsNeeded": bigS(p.QsrFundsNeeded), "creationTimestamp": p.CreationTimestamp, "lastUpdateTimestamp": p.LastUpdateTimestamp, "status": p.Status,
+		"phaseIds": strList(len(p.PhaseIds), func(i int) string { return p.PhaseIds[i].String() }), "votes": t.breakdown(p.Id), "phases": phaseList}
+}
+
+func (t *Truth) project(id types.Hash) *definition.Project {
+	for _, p := range t.Projects {
+		if p.Id == id {
+			return p
+		}
+	}
+	return nil
+}
+
+func pairObj(p *definition.TokenPair) obj {
+	return obj{"tokenStandard": p.TokenStandard.String(), "tokenAddress": p.TokenAddress, "bridgeable": p.Bridgeable, "redeemable": p.Redeemable, "owned": p.Owned, "minAmount": bigS(p.MinAmount),
+		"feePercentage": p.FeePercentage, "redeemDelay": p.RedeemDelay, "metadata": p.Metadata}
+}
+
+func networkObj(n *definition.NetworkInfo) obj {
+	var pairs interface{} = emptyList{}
+	if len(n.TokenPairs) > 0 {
+		l := make([]interface{}, len(n.TokenPairs))
+		for i := range n.TokenPairs {
+			l[i] = pairObj(&n.TokenPairs[i])
+		}
+		pairs = l
+	}
+	return obj{"networkClass": n.NetworkClass, "chainId": n.Id, "name": n.Name, "contractAddress": n.ContractAddress, "metadata": n.Metadata, "tokenPairs": pairs}
+}
+
+func (t *Truth) network(class, chain uint32) *definition.NetworkInfo {
+	for _, n := range t.Networks {
+		if n.NetworkClass == class && n.Id == chain {
+			return n
+		}
+	}
+	return nil
+}
+
+func securityObj(s *definition.SecurityInfoVariable) obj {
+	return obj{"guardians": strList(len(s.Guardians), func(i int) string { return s.Guardians[i].String() }),
+		"guardiansVotes": strList(len(s.GuardiansVotes), func(i int) string { return s.GuardiansVotes[i].String() }),
+		"administratorDelay": s.AdministratorDelay, "softDelay": s.SoftDelay}
+}
+
+// remaining: how many momentums are still missing until start+delay, seen from the frontier (never negative).
+func remaining(start, delay, frontier uint64) uint64 {
+	if frontier >= start && frontier-start >= delay {
+		return 0
+	}
+	return start + delay - frontier
+}
+
+func (t *Truth) wrapObj(w *definition.WrapTokenRequest) obj {
+	return obj{"networkClass": w.NetworkClass, "chainId": w.ChainId, "id": w.Id.String(), "toAddress": w.ToAddress, "tokenStandard": w.TokenStandard.String(), "tokenAddress": w.TokenAddress,
+		"amount": bigS(w.Amount), "fee": bigS(w.Fee), "signature": w.Signature, "creationMomentumHeight": w.CreationMomentumHeight, "token": tokenObj(t.Tokens[w.TokenStandard]),
+		"confirmationsToFinality": remaining(w.CreationMomentumHeight, uint64(t.Orchestrator.ConfirmationsToFinality), t.V.Frontier)}
+}
+
+func (t *Truth) wrap(id types.Hash) *definition.WrapTokenRequest {
+	for _, w := range t.Wraps {
+		if w.Id == id {
+			return w
+		}
+	}
+	return nil
+}
+
+// pairOf: the token pair an unwrap request refers to (its network must exist and hold a pair with that foreign token
+// address, or whose token standard is spelled there); nil if the administrator has removed it since.
+func (t *Truth) pairOf(u *definition.UnwrapTokenRequest) *definition.TokenPair {
+	n := t.network(u.NetworkClass, u.ChainId)
+	if n == nil || n.Name == "" {
+		return nil
+	}
+	for i := range n.TokenPairs {
+		if n.TokenPairs[i].TokenAddress == u.TokenAddress || n.TokenPairs[i].TokenStandard.String() == u.TokenAddress {
+			return &n.TokenPairs[i]
+		}
+	}
+	return nil
+}
+
+func (t *Truth) unwrapObj(u *definition.UnwrapTokenRequest, pair *definition.TokenPair) obj {
+	return obj{"registrationMomentumHeight": u.RegistrationMomentumHeight, "networkClass": u.NetworkClass, "chainId": u.ChainId, "transactionHash": u.TransactionHash.String(), "logIndex": u.LogIndex,
+		"toAddress": u.ToAddress.String(), "tokenAddress": u.TokenAddress, "tokenStandard": u.TokenStandard.String(), "amount": bigS(u.Amount), "signature": u.Signature, "redeemed": u.Redeemed,
+		"revoked": u.Revoked, "token": tokenObj(t.Tokens[u.TokenStandard]), "redeemableIn": remaining(u.RegistrationMomentumHeight, uint64(pair.RedeemDelay), t.V.Frontier)}
+}
+
+func (t *Truth) unwrap(h types.Hash, log uint32) *definition.UnwrapTokenRequest {
+	for _, u := range t.Unwraps {
+		if u.TransactionHash == h && u.LogIndex == log {
+			return u
+		}
+	}
+	return nil
+}
+
+// window: the lock / revoke cycle of pillars and sentinels. After registration the entry is locked for `lock`
+// seconds, then revocable for `open` seconds, and so on; the answer says which and for how much longer.
+func window(now, registration, lock, open int64) (revocable bool, cooldown int64) {
+	pos := (now - registration) % (lock + open)
+	if pos < lock {
+		return false, lock - pos
+	}
+	return true, lock + open - pos
+}
+
+func (t *Truth) now() int64 { return int64(t.V.Momentums[len(t.V.Momentums)-1].TimestampUnix) }
+
+// ranked: the active pillars in the documented order (weight descending, name ascending).
+func (t *Truth) ranked() []*definition.PillarInfo {
+	var l []*definition.PillarInfo
+	for _, p := range t.Pillars {
+		if p.RevokeTime == 0 {
+			l = append(l, p)
+		}
+	}
+	sort.SliceStable(l, func(i, j int) bool {
+		if r := t.weight(l[i].Name).Cmp(t.weight(l[j].Name)); r != 0 {
+			return r > 0
+		}
+		return l[i].Name < l[j].Name
+	})
+	return l
+}
+
+func (t *Truth) weight(name string) *big.Int {
+	if w := t.Weights[name]; w != nil {
+		return w
+	}
+	return new(big.Int)
+}
+
+func (t *Truth) pillarObj(p *definition.PillarInfo, rank int) obj {
+	revocable, cooldown := window(t.now(), p.RegistrationTime, constants.PillarEpochLockTime, constants.PillarEpochRevokeTime)
+	return obj{"name": p.Name, "rank": rank, "type": p.PillarType, "ownerAddress": p.StakeAddress.String(), "producerAddress": p.BlockProducingAddress.String(),
+		"withdrawAddress": p.RewardWithdrawAddress.String(), "isRevocable": revocable, "revokeCooldown": cooldown, "revokeTimestamp": p.RevokeTime,
+		"giveMomentumRewardPercentage": p.GiveBlockRewardPercentage, "giveDelegateRewardPercentage": p.GiveDelegateRewardPercentage,
+		"currentStats": obj{"producedMomentums": t.Stats[p.Name][0], "expectedMomentums": t.Stats[p.Name][1]}, "weight": t.weight(p.Name).String()}
+}
+
+func htlcObj(h *htlcEntry) obj {
+	return obj{"id": h.Id.String(), "timeLocked": h.TimeLocked.String(), "hashLocked": h.HashLocked.String(), "tokenStandard": h.TokenStandard.String(), "amount": bigS(h.Amount),
+		"expirationTime": h.ExpirationTime, "hashType": h.HashType, "keyMaxSize": h.KeyMaxSize, "hashLock": base64Std(h.HashLock)}
+}
+
+// swapShare: the percentage of the legacy assets still retrievable in `epoch` (10% are lost per 30 epochs once 90
+// epochs have passed).
+func swapShare(epoch uint64) int64 {
+	if int64(epoch) < int64(constants.SwapAssetDecayEpochsOffset) {
+		return 100
+	}
+	lost := int64(constants.SwapAssetDecayTickValuePercentage) * ((int64(epoch) - int64(constants.SwapAssetDecayEpochsOffset) + 1) / int64(constants.SwapAssetDecayTickEpochs))
+	if lost > 100 {
+		return 0
+	}
+	return 100 - lost
+}
+
+func share(x *big.Int, pct int64) string {
+	v := new(big.Int).Mul(x, big.NewInt(pct))
+	return v.Quo(v, big.NewInt(100)).String()
+}
+
+func fusedToPlasma(amount *big.Int) uint64 {
+	if amount == nil || amount.Sign() <= 0 {
+		return 0
+	}
+	if amount.Cmp(constants.MaxFussedAmountForAccountBig) >= 0 {
+		return constants.MaxFusionPlasmaForAccount
+	}
+	return amount.Uint64() / constants.CostPerFusionUnit * constants.PlasmaPerFusionUnit
+}
+
+// plasmaOf: plasma the fused QSR of the account yields at the confirmed frontier, and what is left of it once the
+// account's unconfirmed blocks are paid (ok=false: they use more than there is).
+func (t *Truth) plasmaOf(a types.Address) (fused *big.Int, max uint64, current uint64, ok bool) {
+	fused = t.FusedConf[a]
+	if fused == nil {
+		fused = new(big.Int)
+	}
+	max = fusedToPlasma(fused)
+	used := uint64(0)
+	for _, b := range t.V.PooledOf(a) {
+		used += b.FusedPlasma
+	}
+	if used > max {
+		return fused, max, 0, false
+	}
+	return fused, max, max - used, true
+}
+
+// ---- the checks ---------------------------------------------------------------------------------------------------------
+
+type pointMethod struct {
+	name string
+	w    int
+	run  func(e *Env, t *Truth)
+}
+
+// seen marks the case as non-trivial: it asked about an entity the chain holds with non-default content.
+func (e *Env) seen(k Call, class string) {
+	e.C.NonTrivial()
+	e.C.NonTrivialItem(k.RPCName())
+	if class != "" {
+		e.C.Class(class)
+	}
+}
+
+func (t *Truth) ids() (projects, phases, htlcs, wraps, unwrapTx []types.Hash) {
+	for _, p := range t.Projects {
+		projects = append(projects, p.Id)
+	}
+	for id := range t.Phases {
+		phases = append(phases, id)
+	}
+	for id := range t.Htlcs {
+		htlcs = append(htlcs, id)
+	}
+	for _, w := range t.Wraps {
+		wraps = append(wraps, w.Id)
+	}
+	seen := map[types.Hash]bool{}
+	for _, u := range t.Unwraps {
+		if !seen[u.TransactionHash] {
+			seen[u.TransactionHash] = true
+			unwrapTx = append(unwrapTx, u.TransactionHash)
+		}
+	}
+	return sortedHashes(projects), sortedHashes(phases), sortedHashes(htlcs), sortedHashes(wraps), sortedHashes(unwrapTx)
+}
+
+func joinHashes(ls ...[]types.Hash) []types.Hash {
+	var out []types.Hash
+	for _, l := range ls {
+		out = append(out, l...)
+	}
+	return out
+}
+
+// -- accelerator
+
+// creatingCall decodes the accelerator call whose send block has the hash id (projects and phases are named after it).
+func (e *Env) creatingCall(id types.Hash, method string) (*nom.AccountBlock, *definition.AcceleratorParam) {
+	b := e.V.ByHash[id]
+	if b == nil || b.ToAddress != types.AcceleratorContract || !b.IsSendBlock() {
+		return nil, nil
+	}
+	param := new(definition.AcceleratorParam)
+	if err := definition.ABIAccelerator.UnpackMethod(param, method, b.Data); err != nil {
+		return b, nil
+	}
+	return b, param
+}
+
+func pProjectById(e *Env, t *Truth) {
+	c, v := e.C, e.V
+	projects, phases, htlcs, wraps, _ := t.ids()
+	for _, p := range t.Projects {
+		if len(p.PhaseIds) > 0 {
+			projects = append(projects, p.Id, p.Id) // drawn more often
+		}
+	}
+	id := e.hashArg("proj.id", projects, joinHashes(phases, htlcs, wraps))
+	k, a := e.point("embedded.accelerator", v.Apis.Accelerator, "GetProjectById", id)
+	p := t.project(id)
+	if p == nil {
+		e.expectErr(k, a, errNonExistent, "no project has that id")
+		return
+	}
+	e.expect(k, a, t.projectObj(p))
+	e.seen(k, "")
+	if len(p.PhaseIds) > 0 {
+		c.Class("project-with-phases")
+	}
+	if len(t.Votes[p.Id]) > 0 {
+		c.Class("project-with-votes")
+	}
+	c.Class(fmt.Sprintf("project-status-%d", p.Status))
+	// the project is named after the block that created it
+	var got struct {
+		Owner          types.Address `json:"owner"`
+		Name           string        `json:"name"`
+		Description    string        `json:"description"`
+		Url            string        `json:"url"`
+		ZnnFundsNeeded string        `json:"znnFundsNeeded"`
+		QsrFundsNeeded string        `json:"qsrFundsNeeded"`
+	}
+	_ = json.Unmarshal(a.JSON, &got)
+	if b, param := e.creatingCall(id, definition.CreateProjectMethodName); b == nil || param == nil {
+		c.Failf(pk(k, "creating-block"), "%s: the project id is not the hash of a CreateProject call on any account chain", k)
+	} else if got.Owner != b.Address || got.Name != param.Name || got.Description != param.Description || got.Url != param.Url || got.ZnnFundsNeeded != bigS(param.ZnnFundsNeeded) || got.QsrFundsNeeded != bigS(param.QsrFundsNeeded) {
+		c.Failf(pk(k, "creating-block"), "%s answers %+v, the creating call of %v says name %q description %q url %q funds %v / %v", k, got, b.Address, param.Name, param.Description, param.Url, param.ZnnFundsNeeded, param.QsrFundsNeeded)
+	}
+}
+
+func pPhaseById(e *Env, t *Truth) {
+	c, v := e.C, e.V
+	projects, phases, htlcs, _, _ := t.ids()
+	id := e.hashArg("phase.id", phases, joinHashes(projects, htlcs))
+	k, a := e.point("embedded.accelerator", v.Apis.Accelerator, "GetPhaseById", id)
+	ph := t.Phases[id]
+	if ph == nil {
+		e.expectErr(k, a, errNonExistent, "no phase has that id")
+		return
+	}
+	e.expect(k, a, t.phaseWithVotes(id))
+	e.seen(k, "")
+	if len(t.Votes[id]) > 0 {
+		c.Class("phase-with-votes")
+	}
+	c.Class(fmt.Sprintf("phase-status-%d", ph.Status))
+	var got struct {
+		Phase struct {
+			ProjectId      types.Hash `json:"projectID"`
+			Name           string     `json:"name"`
+			ZnnFundsNeeded string     `json:"znnFundsNeeded"`
+			QsrFundsNeeded string     `json:"qsrFundsNeeded"`
+		} `json:"phase"`
+	}
+	_ = json.Unmarshal(a.JSON, &got)
+	b, param := e.creatingCall(id, definition.AddPhaseMethodName)
+	if param == nil {
+		b, param = e.creatingCall(id, definition.UpdatePhaseMethodName)
+	}
+	if b == nil || param == nil {
+		c.Failf(pk(k, "creating-block"), "%s: the phase id is not the hash of an AddPhase / UpdatePhase call on any account chain", k)
+	} else if got.Phase.ProjectId != param.Id || got.Phase.Name != param.Name || got.Phase.ZnnFundsNeeded != bigS(param.ZnnFundsNeeded) || got.Phase.QsrFundsNeeded != bigS(param.QsrFundsNeeded) {
+		c.Failf(pk(k, "creating-block"), "%s answers %+v, the creating call says project %v name %q funds %v / %v", k, got.Phase, param.Id, param.Name, param.ZnnFundsNeeded, param.QsrFundsNeeded)
+	}
+	if pr := t.project(ph.ProjectId); pr == nil {
+		c.Class("phase-of-no-project")
+	}
+}
+
+func pVoteBreakdown(e *Env, t *Truth) {
+	c, v := e.C, e.V
+	projects, phases, htlcs, _, _ := t.ids()
+	var voted []types.Hash
+	for id := range t.Votes {
+		voted = append(voted, id)
+	}
+	id := e.hashArg("vb.id", joinHashes(sortedHashes(voted), projects, phases), htlcs)
+	k, a := e.point("embedded.accelerator", v.Apis.Accelerator, "GetVoteBreakdown", id)
+	e.expect(k, a, t.breakdown(id))
+	if n := len(t.Votes[id]); n > 0 {
+		e.seen(k, "")
+		if bd := t.breakdown(id); bd["yes"].(uint32) > 0 && bd["no"].(uint32) > 0 {
+			c.Class("breakdown-with-yes-and-no")
+		}
+		if bd := t.breakdown(id); int(bd["yes"].(uint32)+bd["no"].(uint32)) < n {
+			c.Class("breakdown-with-abstention")
+		}
+	} else {
+		c.Class("not-found " + k.RPCName())
+	}
+}
+
+func (t *Truth) pillarNames() []string {
+	set := map[string]bool{}
+	for _, p := range t.Pillars {
+		set[p.Name] = true
+	}
+	for _, l := range t.Votes {
+		for _, v := range l {
+			set[v.Name] = true
+		}
+	}
+	for _, n := range t.Delegations {
+		set[n] = true
+	}
+	out := make([]string, 0, len(set))
+	for n := range set {
+		out = append(out, n)
+	}
+	sort.Strings(out)
+	return out
+}
+
+func pPillarVotes(e *Env, t *Truth) {
+	c, v := e.C, e.V
+	projects, phases, htlcs, _, _ := t.ids()
+	var voted []types.Hash
+	for id := range t.Votes {
+		voted = append(voted, id)
+	}
+	voted = sortedHashes(voted)
+	name := e.nameArg("pv.name", t.pillarNames())
+	n := c.Int("pv.n", 0, 5)
+	hashes := make([]types.Hash, n)
+	for i := range hashes {
+		hashes[i] = e.hashArg(fmt.Sprintf("pv.id%d", i), joinHashes(voted, voted, projects, phases), htlcs)
+	}
+	k, a := e.point("embedded.accelerator", v.Apis.Accelerator, "GetPillarVotes", name, hashes)
+	want := make([]interface{}, n)
+	hits := 0
+	for i, id := range hashes {
+		for _, pv := range t.Votes[id] {
+			if pv.Name == name {
+				want[i] = obj{"id": id.String(), "name": pv.Name, "vote": pv.Vote}
+				hits++
+			}
+		}
+	}
+	if n == 0 {
+		e.expect(k, a, emptyList{})
+		return
+	}
+	e.expect(k, a, want)
+	if hits > 0 {
+		e.seen(k, "")
+		if hits < n {
+			c.Class("pillar-votes-some-missing")
+		}
+	} else {
+		c.Class("not-found " + k.RPCName())
+	}
+}
+
+// -- bridge
+
+func pBridgeInfo(e *Env, t *Truth) {
+	b := t.BridgeInfo
+	k, a := e.point("embedded.bridge", e.V.Apis.Bridge, "GetBridgeInfo")
+	e.expect(k, a, obj{"administrator": b.Administrator.String(), "compressedTssECDSAPubKey": b.CompressedTssECDSAPubKey, "decompressedTssECDSAPubKey": b.DecompressedTssECDSAPubKey,
+		"allowKeyGen": b.AllowKeyGen, "halted": b.Halted, "unhaltedAt": b.UnhaltedAt, "unhaltDurationInMomentums": b.UnhaltDurationInMomentums, "tssNonce": b.TssNonce, "metadata": b.Metadata})
+	if b.CompressedTssECDSAPubKey != "" {
+		e.seen(k, "")
+	}
+}
+
+func pOrchestratorInfo(e *Env, t *Truth) {
+	o := t.Orchestrator
+	k, a := e.point("embedded.bridge", e.V.Apis.Bridge, "GetOrchestratorInfo")
+	e.expect(k, a, obj{"windowSize": o.WindowSize, "keyGenThreshold": o.KeyGenThreshold, "confirmationsToFinality": o.ConfirmationsToFinality, "estimatedMomentumTime": o.EstimatedMomentumTime,
+		"allowKeyGenHeight": o.AllowKeyGenHeight})
+	if o.WindowSize != 0 {
+		e.seen(k, "")
+	}
+}
+
+func pSecurityInfo(e *Env, t *Truth) {
+	ns, svc, sec, other := "embedded.bridge", interface{}(e.V.Apis.Bridge), t.BridgeSec, t.LiqSec
+	if e.C.Bool("sec.liquidity") {
+		ns, svc, sec, other = "embedded.liquidity", e.V.Apis.Liquidity, t.LiqSec, t.BridgeSec
+	}
+	k, a := e.point(ns, svc, "GetSecurityInfo")
+	e.expect(k, a, securityObj(sec))
+	if len(sec.Guardians) > 0 {
+		e.seen(k, "")
+		if !reflect.DeepEqual(sec.Guardians, other.Guardians) {
+			e.C.Class("security-info-differs-between-bridge-and-liquidity")
+		}
+	}
+}
+
+func pTimeChallenges(e *Env, t *Truth) {
+	c := e.C
+	ns, svc, tcs := "embedded.bridge", interface{}(e.V.Apis.Bridge), t.BridgeTC
+	if c.Bool("tc.liquidity") {
+		ns, svc, tcs = "embedded.liquidity", e.V.Apis.Liquidity, t.LiqTC
+	}
+	k, a := e.point(ns, svc, "GetTimeChallengesInfo")
+	if a.Err != "" {
+		c.Failf(pk(k, "error"), "%s failed: %s", k, a.Err)
+		return
+	}
+	// the order of the challenges is not documented: compared by method name
+	var got struct {
+		Count int                      `json:"count"`
+		List  []map[string]interface{} `json:"list"`
+	}
+	dec := json.NewDecoder(bytes.NewReader(a.JSON))
+	dec.UseNumber()
+	if err := dec.Decode(&got); err != nil {
+		c.Failf(pk(k, "not-json"), "%s: %v: %s", k, err, clip(a.JSON))
+	}
+	names := make([]string, 0, len(tcs))
+	for n := range tcs {
+		names = append(names, n)
+	}
+	sort.Strings(names)
+	if got.Count != len(tcs) || len(got.List) != len(tcs) {
+		c.Failf(pk(k, "count"), "%s: count %d with %d entries, the contract storage holds %d challenges %v: %s", k, got.Count, len(got.List), len(tcs), names, clip(a.JSON))
+	}
+	sort.SliceStable(got.List, func(i, j int) bool { return fmt.Sprint(got.List[i]["MethodName"]) < fmt.Sprint(got.List[j]["MethodName"]) })
+	pending := false
+	for i, n := range names {
+		tc := tcs[n]
+		want := obj{"MethodName": tc.MethodName, "ParamsHash": tc.ParamsHash.String(), "ChallengeStartHeight": tc.ChallengeStartHeight}
+		if path, msg := jsonDiff("", interface{}(got.List[i]), normalize(want)); msg != "" {
+			c.Failf(pk(k, topField(path)), "%s: challenge of %s: %s: %s: %s", k, n, path, msg, clip(a.JSON))
+		}
+		if !tc.ParamsHash.IsZero() {
+			pending = true
+		}
+	}
+	if len(tcs) > 0 {
+		e.seen(k, "")
+	}
+	if pending {
+		c.Class("time-challenge-pending")
+	}
+}
+
+func pNetworkInfo(e *Env, t *Truth) {
+	c := e.C
+	class, chain := uint32(2), uint32(123)
+	switch e.weighted("net.kind", 6, 3, 1, 1) {
+	case 0:
+		if len(t.Networks) > 0 {
+			n := t.Networks[e.pick("net.idx", len(t.Networks))]
+			class, chain = n.NetworkClass, n.Id
+		}
+	case 1:
+		class, chain = uint32(c.Int("net.class", 0, 3)), uint32(c.Int("net.chain", 121, 126))
+	case 2:
+		if len(t.Networks) > 0 {
+			n := t.Networks[e.pick("net.idx", len(t.Networks))]
+			class, chain = n.Id, n.NetworkClass
+		}
+	default:
+		class, chain = u32Bounds[e.pick("net.bclass", len(u32Bounds))], u32Bounds[e.pick("net.bchain", len(u32Bounds))]
+	}
+	k, a := e.point("embedded.bridge", e.V.Apis.Bridge, "GetNetworkInfo", class, chain)
+	n := t.network(class, chain)
+	if n == nil {
+		c.Class("not-found " + k.RPCName())
+		e.expect(k, a, obj{"networkClass": 0, "chainId": 0, "name": "", "contractAddress": "", "metadata": "{}", "tokenPairs": emptyList{}})
+		return
+	}
+	e.expect(k, a, networkObj(n))
+	e.seen(k, "")
+	if len(n.TokenPairs) > 0 {
+		c.Class("network-with-token-pairs")
+	}
+}
+
+func pWrapById(e *Env, t *Truth) {
+	c, v := e.C, e.V
+	projects, _, htlcs, wraps, unwrapTx := t.ids()
+	id := e.hashArg("wrap.id", wraps, joinHashes(unwrapTx, projects, htlcs))
+	k, a := e.point("embedded.bridge", v.Apis.Bridge, "GetWrapTokenRequestById", id)
+	w := t.wrap(id)
+	if w == nil {
+		e.expectErr(k, a, errNonExistent, "no wrap request has that id")
+		return
+	}
+	want := t.wrapObj(w)
+	e.expect(k, a, want)
+	e.seen(k, "")
+	if want["confirmationsToFinality"].(uint64) > 0 {
+		c.Class("wrap-request-not-yet-final")
+	} else {
+		c.Class("wrap-request-final")
+	}
+	if w.Signature != "" {
+		c.Class("wrap-request-signed")
+	}
+	// the request is named after the send block that filed it
+	b := v.ByHash[id]
+	param := new(definition.WrapTokenParam)
+	if b == nil || b.ToAddress != types.BridgeContract || definition.ABIBridge.UnpackMethod(param, definition.WrapTokenMethodName, b.Data) != nil {
+		c.Failf(pk(k, "creating-block"), "%s: the request id is not the hash of a WrapToken call on any account chain", k)
+		return
+	}
+	if w.Amount.Cmp(b.Amount) != 0 || w.Fee.Cmp(w.Amount) > 0 || w.TokenStandard != b.TokenStandard || w.NetworkClass != param.NetworkClass || w.ChainId != param.ChainId ||
+		!strings.EqualFold(w.ToAddress, param.ToAddress) {
+		c.Failf(pk(k, "creating-block"), "%s answers %s; the filing block sent %v %v to network %d/%d for %s", k, clip(a.JSON), b.Amount, b.TokenStandard, param.NetworkClass, param.ChainId, param.ToAddress)
+	}
+}
+
+func pUnwrapByHashAndLog(e *Env, t *Truth) {
+	c, v := e.C, e.V
+	_, _, htlcs, wraps, unwrapTx := t.ids()
+	var h types.Hash
+	var log uint32
+	switch e.weighted("unwrap.kind", 6, 3, 2) {
+	case 0:
+		if len(t.Unwraps) > 0 {
+			u := t.Unwraps[e.pick("unwrap.idx", len(t.Unwraps))]
+			h, log = u.TransactionHash, u.LogIndex
+			c.Class("arg-id-existing")
+			break
+		}
+		fallthrough
+	case 1:
+		// a transaction hash the bridge knows with a log index it may not know under that hash
+		if len(t.Unwraps) > 0 {
+			u := t.Unwraps[e.pick("unwrap.idx", len(t.Unwraps))]
+			h = u.TransactionHash
+			switch e.weighted("unwrap.log", 3, 2, 1) {
+			case 0:
+				log = uint32(int64(u.LogIndex) + int64(c.Int("unwrap.delta", -2, 2)))
+			case 1:
+				log = t.Unwraps[e.pick("unwrap.otherLog", len(t.Unwraps))].LogIndex
+			default:
+				log = u32Bounds[e.pick("unwrap.blog", len(u32Bounds))]
+			}
+			c.Class("arg-known-hash-other-log-index")
+			break
+		}
+		fallthrough
+	default:
+		h = e.hashArg("unwrap.hash", unwrapTx, joinHashes(wraps, htlcs))
+		log = uint32(c.Int("unwrap.anylog", 0, 20))
+	}
+	k, a := e.point("embedded.bridge", v.Apis.Bridge, "GetUnwrapTokenRequestByHashAndLog", h, log)
+	u := t.unwrap(h, log)
+	if u == nil {
+		e.expectErr(k, a, errNonExistent, "no unwrap request has that transaction hash and log index")
+		return
+	}
+	pair := t.pairOf(u)
+	if pair == nil {
+		c.Class("unwrap-request-whose-token-pair-is-gone")
+		if a.Err == "" {
+			c.Failf(pk(k, "redeemableIn"), "%s answered %s, but network %d/%d holds no pair for %s any more: there is no redeem delay to count from", k, clip(a.JSON), u.NetworkClass, u.ChainId, u.TokenAddress)
+		}
+		return
+	}
+	want := t.unwrapObj(u, pair)
+	e.expect(k, a, want)
+	e.seen(k, "")
+	switch {
+	case u.Redeemed != 0:
+		c.Class("unwrap-request-redeemed")
+	case u.Revoked != 0:
+		c.Class("unwrap-request-revoked")
+	case want["redeemableIn"].(uint64) > 0:
+		c.Class("unwrap-request-not-yet-redeemable")
+	default:
+		c.Class("unwrap-request-redeemable")
+	}
+}
+
+func (e *Env) ztsArg(label string, t *Truth, hot []types.ZenonTokenStandard) types.ZenonTokenStandard {
+	c := e.C
+	switch e.weighted(label+".src", 5, 4, 2, 1) {
+	case 0:
+		if len(hot) > 0 {
+			c.Class("arg-token-with-state")
+			return hot[e.pick(label+".hot", len(hot))]
+		}
+		fallthrough
+	case 1:
+		all := make([]types.ZenonTokenStandard, 0, len(t.Tokens))
+		for z := range t.Tokens {
+			all = append(all, z)
+		}
+		sort.Slice(all, func(i, j int) bool { return all[i].String() < all[j].String() })
+		c.Class("arg-token-known")
+		return all[e.pick(label+".known", len(all))]
+	case 2:
+		c.Class("arg-token-unknown")
+		var z types.ZenonTokenStandard
+		copy(z[:], c.Bytes(label+".raw", types.ZenonTokenStandardSize, types.ZenonTokenStandardSize))
+		return z
+	default:
+		c.Class("arg-token-zero")
+		return types.ZeroTokenStandard
+	}
+}
+
+func pFeeTokenPair(e *Env, t *Truth) {
+	var hot []types.ZenonTokenStandard
+	for z := range t.Fees {
+		hot = append(hot, z)
+	}
+	sort.Slice(hot, func(i, j int) bool { return hot[i].String() < hot[j].String() })
+	z := e.ztsArg("fee.zts", t, hot)
+	k, a := e.point("embedded.bridge", e.V.Apis.Bridge, "GetFeeTokenPair", z)
+	e.expect(k, a, obj{"tokenStandard": z.String(), "accumulatedFee": bigS(t.Fees[z])})
+	if f := t.Fees[z]; f != nil && f.Sign() > 0 {
+		e.seen(k, "")
+	} else {
+		e.C.Class("not-found " + k.RPCName())
+	}
+}
+
+// pBridgeLists: the content of the elements the list methods serve (which elements a page holds is the paging
+// check's business): every element must be the request of that id with its derived fields.
+func pBridgeLists(e *Env, t *Truth) {
+	c, v := e.C, e.V
+	idx, size := uint32(c.Int("bl.index", 0, 3)), uint32(c.Int("bl.size", 1, 12))
+	dest := ""
+	if len(t.Wraps) > 0 && c.Bool("bl.dest") {
+		dest = t.Wraps[e.pick("bl.destOf", len(t.Wraps))].ToAddress
+	}
+	kind := e.pick("bl.method", 6)
+	var k Call
+	var a Answer
+	switch kind {
+	case 0:
+		k, a = e.point("embedded.bridge", v.Apis.Bridge, "GetAllWrapTokenRequests", idx, size)
+	case 1:
+		k, a = e.point("embedded.bridge", v.Apis.Bridge, "GetAllUnsignedWrapTokenRequests", idx, size)
+	case 2:
+		k, a = e.point("embedded.bridge", v.Apis.Bridge, "GetAllWrapTokenRequestsByToAddress", dest, idx, size)
+	case 3:
+		k, a = e.point("embedded.bridge", v.Apis.Bridge, "GetAllWrapTokenRequestsByToAddressNetworkClassAndChainId", dest, uint32(2), uint32(c.Int("bl.chain", 123, 124)), idx, size)
+	case 4:
+		k, a = e.point("embedded.bridge", v.Apis.Bridge, "GetAllUnwrapTokenRequests", idx, size)
+	default:
+		to := ""
+		if len(t.Unwraps) > 0 && c.Bool("bl.to") {
+			to = t.Unwraps[e.pick("bl.toOf", len(t.Unwraps))].ToAddress.String()
+		}
+		k, a = e.point("embedded.bridge", v.Apis.Bridge, "GetAllUnwrapTokenRequestsByToAddress", to, idx, size)
+	}
+	if a.Err != "" {
+		if kind >= 4 {
+			for _, u := range t.Unwraps {
+				if t.pairOf(u) == nil {
+					c.Class("unwrap-request-whose-token-pair-is-gone")
+					return
+				}
+			}
+		}
+		c.Failf(pk(k, "error"), "%s failed: %s", k, a.Err)
+		return
+	}
+	var got struct {
+		List []json.RawMessage `json:"list"`
+	}
+	if err := json.Unmarshal(a.JSON, &got); err != nil {
+		c.Failf(pk(k, "not-json"), "%s: %v: %s", k, err, clip(a.JSON))
+	}
+	for i, raw := range got.List {
+		el, err := decodeJSON(raw)
+		if err != nil {
+			c.Failf(pk(k, "not-json"), "%s: element %d: %v", k, i, err)
+		}
+		var want obj
+		if kind < 4 {
+			var id struct {
+				Id types.Hash `json:"id"`
+			}
+			_ = json.Unmarshal(raw, &id)
+			w := t.wrap(id.Id)
+			if w == nil {
+				c.Failf(pk(k, "phantom"), "%s: element %d (%s) is no wrap request of the contract storage", k, i, clip(raw))
+			}
+			want = t.wrapObj(w)
+		} else {
+			var id struct {
+				Hash types.Hash `json:"transactionHash"`
+				Log  uint32     `json:"logIndex"`
+			}
+			_ = json.Unmarshal(raw, &id)
+			u := t.unwrap(id.Hash, id.Log)
+			if u == nil {
+				c.Failf(pk(k, "phantom"), "%s: element %d (%s) is no unwrap request of the contract storage", k, i, clip(raw))
+			}
+			pair := t.pairOf(u)
+			if pair == nil {
+				c.Failf(pk(k, "redeemableIn"), "%s: element %d (%s): the token pair of that request is gone, there is no redeem delay to count from", k, i, clip(raw))
+			}
+			want = t.unwrapObj(u, pair)
+		}
+		if path, msg := jsonDiff("", el, normalize(want)); msg != "" {
+			c.Failf(pk(k, topField(path)), "%s on %s (frontier %d): element %d: %s: %s\n  element:  %s\n  expected: %s", k, v.Name, v.Frontier, i, strings.TrimPrefix(path, "."), msg, clip(raw), short(want))
+		}
+	}
+	if len(got.List) > 0 {
+		e.seen(k, "")
+	}
+}
+
+// -- liquidity
+
+func pLiquidityInfo(e *Env, t *Truth) {
+	l := t.LiqInfo
+	var tuples interface{} = emptyList{}
+	if len(l.TokenTuples) > 0 {
+		list := make([]interface{}, len(l.TokenTuples))
+		for i, tt := range l.TokenTuples {
+			list[i] = obj{"tokenStandard": tt.TokenStandard, "znnPercentage": tt.ZnnPercentage, "qsrPercentage": tt.QsrPercentage, "minAmount": bigS(tt.MinAmount)}
+		}
+		tuples = list
+	}
+	k, a := e.point("embedded.liquidity", e.V.Apis.Liquidity, "GetLiquidityInfo")
+	e.expect(k, a, obj{"administrator": l.Administrator.String(), "isHalted": l.IsHalted, "znnReward": bigS(l.ZnnReward), "qsrReward": bigS(l.QsrReward), "tokenTuples": tuples})
+	if len(l.TokenTuples) > 0 {
+		e.seen(k, "")
+	}
+}
+
+// -- the variables shared by pillar / sentinel / stake / liquidity
+
+type sharedContract struct {
+	ns       string
+	svc      func(a *Apis) interface{}
+	contract types.Address
+}
+
+var rewardContracts = []sharedContract{
+	{"embedded.pillar", func(a *Apis) interface{} { return a.Pillar }, types.PillarContract},
+	{"embedded.sentinel", func(a *Apis) interface{} { return a.Sentinel }, types.SentinelContract},
+	{"embedded.stake", func(a *Apis) interface{} { return a.Stake }, types.StakeContract},
+	{"embedded.liquidity", func(a *Apis) interface{} { return a.Liquidity }, types.LiquidityContract},
+}
+
+// rewardAddrs: every address with an uncollected reward in ANY of the four contracts (an answer read from the wrong
+// contract shows for such an address).
+func (t *Truth) rewardAddrs() []types.Address {
+	set := map[types.Address]bool{}
+	for _, m := range t.Rewards {
+		for a, r := range m {
+			if r.Znn.Sign() > 0 || r.Qsr.Sign() > 0 {
+				set[a] = true
+			}
+		}
+	}
+	return sortedAddrs(set)
+}
+
+func pUncollectedReward(e *Env, t *Truth) {
+	c := e.C
+	sc := rewardContracts[e.pick("rw.contract", len(rewardContracts))]
+	addr := e.addrArg("rw.addr", t.rewardAddrs())
+	k, a := e.point(sc.ns, sc.svc(e.V.Apis), "GetUncollectedReward", addr)
+	r, ok := t.Rewards[sc.contract][addr]
+	if !ok {
+		r = amounts{new(big.Int), new(big.Int)}
+	}
+	e.expect(k, a, rewardObj(addr, r))
+	if r.Znn.Sign() > 0 || r.Qsr.Sign() > 0 {
+		e.seen(k, "")
+	} else {
+		c.Class("not-found " + k.RPCName())
+	}
+}
+
+func pDepositedQsr(e *Env, t *Truth) {
+	c := e.C
+	sc := rewardContracts[e.pick("dq.contract", 2)]
+	set := map[types.Address]bool{}
+	for _, ct := range []types.Address{types.PillarContract, types.SentinelContract} {
+		for a, d := range t.Deposits[ct] {
+			if d.Sign() > 0 {
+				set[a] = true
+			}
+		}
+	}
+	addr := e.addrArg("dq.addr", sortedAddrs(set))
+	k, a := e.point(sc.ns, sc.svc(e.V.Apis), "GetDepositedQsr", addr)
+	d := t.Deposits[sc.contract][addr]
+	e.expect(k, a, bigS(d))
+	if d != nil && d.Sign() > 0 {
+		e.seen(k, "")
+	} else {
+		c.Class("not-found " + k.RPCName())
+	}
+}
+
+// pRewardHistory: the amounts of the reward history pages (the paging check compares epochs only).
+func pRewardHistory(e *Env, t *Truth) {
+	c := e.C
+	sc := rewardContracts[e.pick("rh.contract", len(rewardContracts))]
+	set := map[types.Address]bool{}
+	for _, m := range t.RewardHist {
+		for key := range m {
+			set[types.ParseAddressPanic(key[:strings.IndexByte(key, '/')])] = true
+		}
+	}
+	addr := e.addrArg("rh.addr", sortedAddrs(set))
+	last := t.LastEpoch[sc.contract]
+	size := uint32(c.Int("rh.size", 1, 8))
+	idx := uint32(0)
+	if last >= 0 {
+		idx = uint32(c.Int("rh.index", 0, int(last)/int(size)+1))
+	}
+	k, a := e.point(sc.ns, sc.svc(e.V.Apis), "GetFrontierRewardByPage", addr, idx, size)
+	var want []interface{}
+	hits := 0
+	for ep := last - int64(idx)*int64(size); ep >= 0 && len(want) < int(size); ep-- {
+		r, ok := t.RewardHist[sc.contract][fmt.Sprintf("%v/%d", addr, ep)]
+		if !ok {
+			r = amounts{new(big.Int), new(big.Int)}
+		} else if r.Znn.Sign() > 0 || r.Qsr.Sign() > 0 {
+			hits++
+		}
+		want = append(want, obj{"epoch": ep, "znnAmount": bigS(r.Znn), "qsrAmount": bigS(r.Qsr)})
+	}
+	var list interface{} = want
+	if len(want) == 0 {
+		list = emptyList{}
+	}
+	e.expect(k, a, obj{"count": last + 1, "list": list})
+	if hits > 0 {
+		e.seen(k, "")
+	}
+}
+
+// -- pillar
+
+func (t *Truth) owners() []types.Address {
+	set := map[types.Address]bool{}
+	for _, p := range t.Pillars {
+		set[p.StakeAddress] = true
+		set[p.BlockProducingAddress] = true
+		set[p.RewardWithdrawAddress] = true
+	}
+	return sortedAddrs(set)
+}
+
+func pPillarByOwner(e *Env, t *Truth) {
+	c := e.C
+	addr := e.addrArg("po.addr", t.owners())
+	k, a := e.point("embedded.pillar", e.V.Apis.Pillar, "GetByOwner", addr)
+	var want []interface{}
+	for rank, p := range t.ranked() {
+		if p.StakeAddress == addr {
+			want = append(want, t.pillarObj(p, rank))
+		}
+	}
+	if len(want) == 0 {
+		c.Class("not-found " + k.RPCName())
+		for _, p := range t.Pillars {
+			if p.StakeAddress == addr {
+				c.Class("owner-of-a-revoked-pillar-only")
+			}
+			if p.StakeAddress != addr && (p.BlockProducingAddress == addr || p.RewardWithdrawAddress == addr) {
+				c.Class("producer-or-withdraw-address-of-a-pillar")
+			}
+		}
+		e.expect(k, a, emptyList{})
+		return
+	}
+	e.expect(k, a, want)
+	e.seen(k, "")
+}
+
+func pPillarByName(e *Env, t *Truth) {
+	c := e.C
+	name := e.nameArg("pn.name", t.pillarNames())
+	k, a := e.point("embedded.pillar", e.V.Apis.Pillar, "GetByName", name)
+	for rank, p := range t.ranked() {
+		if p.Name == name {
+			e.expect(k, a, t.pillarObj(p, rank))
+			e.seen(k, "")
+			if p.PillarType == definition.NormalPillarType {
+				c.Class("pillar-registered-after-genesis")
+			}
+			if rev, _ := window(t.now(), p.RegistrationTime, constants.PillarEpochLockTime, constants.PillarEpochRevokeTime); rev {
+				c.Class("pillar-in-revoke-window")
+			}
+			return
+		}
+	}
+	c.Class("not-found " + k.RPCName())
+	for _, p := range t.Pillars {
+		if p.Name == name {
+			c.Class("name-of-a-revoked-pillar")
+		}
+	}
+	e.expect(k, a, nil)
+}
+
+func pNameAvailability(e *Env, t *Truth) {
+	c := e.C
+	name := e.nameArg("na.name", t.pillarNames())
+	k, a := e.point("embedded.pillar", e.V.Apis.Pillar, "CheckNameAvailability", name)
+	free := true
+	for _, p := range t.Pillars {
+		if p.Name == name {
+			free = false
+			if p.RevokeTime != 0 {
+				c.Class("name-of-a-revoked-pillar")
+			}
+		}
+	}
+	e.expect(k, a, free)
+	if !free {
+		e.seen(k, "")
+	}
+}
+
+func pQsrRegistrationCost(e *Env, t *Truth) {
+	n := int64(0)
+	for _, p := range t.Pillars {
+		if p.RevokeTime == 0 && p.PillarType != definition.LegacyPillarType {
+			n++
+		}
+	}
+	cost := new(big.Int).Mul(constants.PillarQsrStakeIncreaseAmount, big.NewInt(n))
+	cost.Add(cost, constants.PillarQsrStakeBaseAmount)
+	k, a := e.point("embedded.pillar", e.V.Apis.Pillar, "GetQsrRegistrationCost")
+	e.expect(k, a, cost.String())
+	if n > 0 {
+		e.seen(k, "")
+		if n < int64(len(t.ranked())) {
+			e.C.Class("cost-with-legacy-and-new-pillars")
+		}
+	}
+}
+
+func pDelegatedPillar(e *Env, t *Truth) {
+	c := e.C
+	backers := map[types.Address]bool{}
+	for a := range t.Delegations {
+		backers[a] = true
+	}
+	addr := e.addrArg("dp.addr", sortedAddrs(backers))
+	k, a := e.point("embedded.pillar", e.V.Apis.Pillar, "GetDelegatedPillar", addr)
+	name, ok := t.Delegations[addr]
+	if !ok {
+		c.Class("not-found " + k.RPCName())
+		e.expect(k, a, nil)
+		return
+	}
+	status := 2
+	for _, p := range t.Pillars {
+		if p.Name == name && p.RevokeTime == 0 {
+			status = 1
+		}
+	}
+	e.expect(k, a, obj{"name": name, "status": status, "weight": t.ConfBalance(addr, types.ZnnTokenStandard).String()})
+	e.seen(k, "")
+	if status == 2 {
+		c.Class("backer-of-a-revoked-pillar")
+	}
+	if pool := e.V.L.Balances[addr][types.ZnnTokenStandard]; pool != nil && pool.Cmp(t.ConfBalance(addr, types.ZnnTokenStandard)) != 0 {
+		c.Class("backer-with-unconfirmed-balance-change")
+	}
+}
+
+func historyObj(h *definition.PillarEpochHistory) obj {
+	return obj{"name": h.Name, "epoch": h.Epoch, "giveBlockRewardPercentage": h.GiveBlockRewardPercentage, "giveDelegateRewardPercentage": h.GiveDelegateRewardPercentage,
+		"producedBlockNum": h.ProducedBlockNum, "expectedBlockNum": h.ExpectedBlockNum, "weight": bigS(h.Weight)}
+}
+
+// pPillarHistory: content of the epoch history pages of one pillar (the paging check compares epochs only).
+func pPillarHistory(e *Env, t *Truth) {
+	c := e.C
+	name := e.nameArg("ph.name", t.pillarNames())
+	last := t.LastEpoch[types.PillarContract]
+	size := uint32(c.Int("ph.size", 1, 8))
+	idx := uint32(0)
+	if last >= 0 {
+		idx = uint32(c.Int("ph.index", 0, int(last)/int(size)+1))
+	}
+	k, a := e.point("embedded.pillar", e.V.Apis.Pillar, "GetPillarEpochHistory", name, idx, size)
+	var want []interface{}
+	hits := 0
+	for ep := last - int64(idx)*int64(size); ep >= 0 && len(want) < int(size); ep-- {
+		if h := t.PillarHist[fmt.Sprintf("%s/%d", name, ep)]; h != nil {
+			want = append(want, historyObj(h))
+			hits++
+		} else {
+			want = append(want, obj{"name": name, "epoch": ep, "giveBlockRewardPercentage": 0, "giveDelegateRewardPercentage": 0, "producedBlockNum": 0, "expectedBlockNum": 0, "weight": "0"})
+		}
+	}
+	var list interface{} = want
+	if len(want) == 0 {
+		list = emptyList{}
+	}
+	e.expect(k, a, obj{"count": last + 1, "list": list})
+	if hits > 0 {
+		e.seen(k, "")
+	}
+}
+
+// -- sentinel
+
+func pSentinelByOwner(e *Env, t *Truth) {
+	c := e.C
+	set := map[types.Address]bool{}
+	for _, s := range t.Sentinels {
+		set[s.Owner] = true
+	}
+	addr := e.addrArg("so.addr", sortedAddrs(set))
+	k, a := e.point("embedded.sentinel", e.V.Apis.Sentinel, "GetByOwner", addr)
+	for _, s := range t.Sentinels {
+		if s.Owner == addr {
+			revocable, cooldown := window(t.now(), s.RegistrationTimestamp, constants.SentinelLockTimeWindow, constants.SentinelRevokeTimeWindow)
+			e.expect(k, a, obj{"owner": s.Owner.String(), "registrationTimestamp": s.RegistrationTimestamp, "isRevocable": revocable, "revokeCooldown": cooldown, "active": s.RevokeTimestamp == 0})
+			e.seen(k, "")
+			if s.RevokeTimestamp != 0 {
+				c.Class("sentinel-revoked")
+			}
+			if revocable {
+				c.Class("sentinel-in-revoke-window")
+			}
+			return
+		}
+	}
+	c.Class("not-found " + k.RPCName())
+	e.expect(k, a, nil)
+}
+
+// -- plasma
+
+func (t *Truth) beneficiaries() []types.Address {
+	set := map[types.Address]bool{}
+	for a := range t.FusedConf {
+		set[a] = true
+	}
+	for _, a := range t.V.AddrPool {
+		if len(t.V.PooledOf(a)) > 0 {
+			set[a] = true
+		}
+	}
+	return sortedAddrs(set)
+}
+
+func pPlasmaGet(e *Env, t *Truth) {
+	c := e.C
+	addr := e.addrArg("pg.addr", t.beneficiaries())
+	k, a := e.point("embedded.plasma", e.V.Apis.Plasma, "Get", addr)
+	fused, max, current, ok := t.plasmaOf(addr)
+	if !ok {
+		c.Class("plasma-overdrawn-by-unconfirmed-blocks")
+		if a.Err == "" {
+			e.expect(k, a, obj{"currentPlasma": 0, "maxPlasma": max, "qsrAmount": fused.String()})
+		}
+		return
+	}
+	e.expect(k, a, obj{"currentPlasma": current, "maxPlasma": max, "qsrAmount": fused.String()})
+	if fused.Sign() > 0 {
+		e.seen(k, "")
+		if current < max {
+			c.Class("plasma-partly-used-by-unconfirmed-blocks")
+		}
+	} else {
+		c.Class("not-found " + k.RPCName())
+	}
+}
+
+// pRequiredPoW: parameters of a block the ledger holds (its recorded base plasma is what the network accepted for
+// exactly these parameters) or a synthetic plain transfer / receive.
+func pRequiredPoW(e *Env, t *Truth) {
+	c, v := e.C, e.V
+	var param embedded.GetRequiredParam
+	var base uint64
+	baseKnown := true
+	switch e.weighted("pow.kind", 5, 3, 2) {
+	case 0:
+		// an existing block of a user account
+		var users []types.Address
+		for _, a := range v.L.Accounts {
+			if !types.IsEmbeddedAddress(a) && len(v.L.Blocks[a]) > 1 {
+				users = append(users, a)
+			}
+		}
+		if len(users) > 0 {
+			acc := users[e.pick("pow.acc", len(users))]
+			bl := v.L.Blocks[acc]
+			b := bl[1+e.pick("pow.block", len(bl)-1)]
+			if b.BlockType == nom.BlockTypeUserSend || b.BlockType == nom.BlockTypeUserReceive {
+				to := b.ToAddress
+				param = embedded.GetRequiredParam{SelfAddr: e.addrArg("pow.self", append(t.beneficiaries(), acc)), BlockType: b.BlockType, ToAddr: &to, Data: b.Data}
+				base = b.BasePlasma
+				if types.IsEmbeddedAddress(to) && b.IsSendBlock() {
+					c.Class("pow-for-a-contract-call")
+				}
+				break
+			}
+		}
+		fallthrough
+	case 1:
+		to := e.addrArg("pow.to", nil)
+		for types.IsEmbeddedAddress(to) {
+			to = v.Users[e.pick("pow.toUser", len(v.Users))]
+		}
+		data := c.Bytes("pow.data", 0, 60)
+		if e.weighted("pow.long", 6, 1) == 1 {
+			data = bytes.Repeat([]byte{7}, c.Int("pow.len", 1000, 1200))
+		}
+		param = embedded.GetRequiredParam{SelfAddr: e.addrArg("pow.self", t.beneficiaries()), BlockType: nom.BlockTypeUserSend, ToAddr: &to, Data: data}
+		base = uint64(constants.AccountBlockBasePlasma + len(data)*constants.ABByteDataPlasma)
+		c.Class("pow-for-a-plain-transfer")
+	default:
+		param = embedded.GetRequiredParam{SelfAddr: e.addrArg("pow.self", t.beneficiaries()), BlockType: nom.BlockTypeUserReceive, Data: c.Bytes("pow.rdata", 0, 8)}
+		if c.Bool("pow.withTo") {
+			to := e.addrArg("pow.rto", nil)
+			param.ToAddr = &to
+		}
+		base = constants.AccountBlockBasePlasma
+		c.Class("pow-for-a-receive")
+	}
+	if types.IsEmbeddedAddress(param.SelfAddr) {
+		base = 0 // contracts pay no plasma
+		c.Class("pow-for-a-contract-account")
+	}
+	k, a := e.point("embedded.plasma", v.Apis.Plasma, "GetRequiredPoWForAccountBlock", param)
+	_, _, avail, ok := t.plasmaOf(param.SelfAddr)
+	if !ok {
+		c.Class("plasma-overdrawn-by-unconfirmed-blocks")
+		return
+	}
+	need := uint64(0)
+	if base > avail {
+		need = base - avail
+	}
+	if need > constants.MaxPoWPlasmaForAccountBlock {
+		c.Class("pow-beyond-the-maximum")
+		if a.Err == "" {
+			c.Failf(pk(k, "requiredDifficulty"), "%s answered %s: %d plasma are missing, more than proof of work may supply (%d)", k, clip(a.JSON), need, uint64(constants.MaxPoWPlasmaForAccountBlock))
+		}
+		return
+	}
+	_ = baseKnown
+	e.expect(k, a, obj{"availablePlasma": avail, "basePlasma": base, "requiredDifficulty": need * constants.PoWDifficultyPerPlasma})
+	if avail > 0 {
+		e.seen(k, "")
+	}
+	if need > 0 {
+		c.Class("pow-needed")
+	}
+}
+
+// pEntryTotals: totals and element content of the fusion / stake / liquidity-stake lists of one owner.
+func pEntryTotals(e *Env, t *Truth) {
+	c, v := e.C, e.V
+	idx, size := uint32(c.Int("et.index", 0, 2)), uint32(c.Int("et.size", 1, 10))
+	page := func(n int) (int, int) { return expectedRange(idx, size, n) }
+	switch e.pick("et.kind", 3) {
+	case 0:
+		owners := map[types.Address]bool{}
+		for _, f := range t.Fusions {
+			owners[f.Owner] = true
+		}
+		addr := e.addrArg("et.addr", sortedAddrs(owners))
+		k, a := e.point("embedded.plasma", v.Apis.Plasma, "GetEntriesByAddress", addr, idx, size)
+		total, byId := new(big.Int), map[string]obj{}
+		for _, f := range t.Fusions {
+			if f.Owner == addr {
+				total.Add(total, f.Amount)
+				byId[f.Id.String()] = obj{"qsrAmount": bigS(f.Amount), "beneficiary": f.Beneficiary.String(), "expirationHeight": f.ExpirationHeight, "id": f.Id.String()}
+			}
+		}
+		lo, hi := page(len(byId))
+		e.checkEntryPage(k, a, obj{"qsrAmount": total.String(), "count": len(byId)}, byId, hi-lo)
+	case 1:
+		owners := map[types.Address]bool{}
+		for _, s := range t.Stakes {
+			owners[s.StakeAddress] = true
+		}
+		addr := e.addrArg("et.addr", sortedAddrs(owners))
+		k, a := e.point("embedded.stake", v.Apis.Stake, "GetEntriesByAddress", addr, idx, size)
+		total, weighted, byId := new(big.Int), new(big.Int), map[string]obj{}
+		for _, s := range t.Stakes {
+			if s.StakeAddress == addr && s.RevokeTime == 0 {
+				total.Add(total, s.Amount)
+				weighted.Add(weighted, s.WeightedAmount)
+				byId[s.Id.String()] = obj{"amount": bigS(s.Amount), "weightedAmount": bigS(s.WeightedAmount), "startTimestamp": s.StartTime, "expirationTimestamp": s.ExpirationTime,
+					"address": s.StakeAddress.String(), "id": s.Id.String()}
+			}
+		}
+		lo, hi := page(len(byId))
+		e.checkEntryPage(k, a, obj{"totalAmount": total.String(), "totalWeightedAmount": weighted.String(), "count": len(byId)}, byId, hi-lo)
+	default:
+		owners := map[types.Address]bool{}
+		for _, s := range t.LiqStakes {
+			owners[s.StakeAddress] = true
+		}
+		addr := e.addrArg("et.addr", sortedAddrs(owners))
+		k, a := e.point("embedded.liquidity", v.Apis.Liquidity, "GetLiquidityStakeEntriesByAddress", addr, idx, size)
+		total, weighted, byId := new(big.Int), new(big.Int), map[string]obj{}
+		for _, s := range t.LiqStakes {
+			if s.StakeAddress == addr && s.RevokeTime == 0 {
+				total.Add(total, s.Amount)
+				weighted.Add(weighted, s.WeightedAmount)
+				byId[s.Id.String()] = obj{"amount": bigS(s.Amount), "tokenStandard": s.TokenStandard.String(), "weightedAmount": bigS(s.WeightedAmount), "startTime": s.StartTime, "revokeTime": s.RevokeTime,
+					"expirationTime": s.ExpirationTime, "stakeAddress": s.StakeAddress.String(), "id": s.Id.String()}
+			}
+		}
+		lo, hi := page(len(byId))
+		e.checkEntryPage(k, a, obj{"totalAmount": total.String(), "totalWeightedAmount": weighted.String(), "count": len(byId)}, byId, hi-lo)
+	}
+}
+
+// checkEntryPage compares the header fields of a list answer and every element (found by its id) with the truth.
+func (e *Env) checkEntryPage(k Call, a Answer, header obj, byId map[string]obj, wantLen int) {
+	c := e.C
+	if a.Err != "" {
+		c.Failf(pk(k, "error"), "%s failed: %s", k, a.Err)
+		return
+	}
+	gotAny, err := decodeJSON(a.JSON)
+	got, ok := gotAny.(map[string]interface{})
+	if err != nil || !ok {
+		c.Failf(pk(k, "not-json"), "%s: %v: %s", k, err, clip(a.JSON))
+	}
+	list, _ := got["list"].([]interface{})
+	delete(got, "list")
+	if path, msg := jsonDiff("", interface{}(got), normalize(header)); msg != "" {
+		c.Failf(pk(k, topField(path)), "%s on %s: %s: %s\n  answer: %s\n  expected totals: %s", k, e.V.Name, strings.TrimPrefix(path, "."), msg, clip(a.JSON), short(header))
+	}
+	if len(list) != wantLen {
+		c.Failf(pk(k, "list"), "%s: page of %d elements, the owner has %d entries: %d expected", k, len(list), len(byId), wantLen)
+	}
+	for i, el := range list {
+		m, _ := el.(map[string]interface{})
+		want, ok := byId[fmt.Sprint(m["id"])]
+		if !ok {
+			c.Failf(pk(k, "phantom"), "%s: element %d (%s) is no entry of that owner in the contract storage", k, i, short(el))
+		}
+		if path, msg := jsonDiff("", el, normalize(want)); msg != "" {
+			c.Failf(pk(k, topField(path)), "%s: element %d: %s: %s\n  element:  %s\n  expected: %s", k, i, strings.TrimPrefix(path, "."), msg, short(el), short(want))
+		}
+	}
+	if len(byId) > 0 {
+		e.seen(k, "")
+	}
+}
+
+// -- swap
+
+func pSwapByKeyIdHash(e *Env, t *Truth) {
+	c := e.C
+	var hot, cold []types.Hash
+	for _, s := range t.Swap {
+		hot = append(hot, s.KeyIdHash)
+	}
+	for _, l := range t.Legacy {
+		cold = append(cold, l.KeyIdHash)
+	}
+	id := e.hashArg("swap.id", sortedHashes(hot), sortedHashes(cold))
+	k, a := e.point("embedded.swap", e.V.Apis.Swap, "GetAssetsByKeyIdHash", id)
+	pct := swapShare(t.Epoch)
+	for _, s := range t.Swap {
+		if s.KeyIdHash == id {
+			e.expect(k, a, obj{"keyIdHash": id.String(), "znn": share(s.Znn, pct), "qsr": share(s.Qsr, pct)})
+			if s.Znn.Sign() > 0 || s.Qsr.Sign() > 0 {
+				e.seen(k, "")
+				if pct < 100 {
+					c.Class("legacy-assets-decayed")
+				}
+			} else {
+				c.Class("legacy-assets-retrieved")
+			}
+			return
+		}
+	}
+	c.Class("not-found " + k.RPCName())
+	e.expect(k, a, obj{"keyIdHash": id.String(), "znn": "0", "qsr": "0"})
+}
+
+func pSwapAll(e *Env, t *Truth) {
+	pct := swapShare(t.Epoch)
+	if e.C.Bool("swap.legacy") {
+		k, a := e.point("embedded.swap", e.V.Apis.Swap, "GetLegacyPillars")
+		if a.Err != "" {
+			e.C.Failf(pk(k, "error"), "%s failed: %s", k, a.Err)
+			return
+		}
+		// the order of the entries is not documented
+		var got []map[string]interface{}
+		dec := json.NewDecoder(bytes.NewReader(a.JSON))
+		dec.UseNumber()
+		if err := dec.Decode(&got); err != nil {
+			e.C.Failf(pk(k, "not-json"), "%s: %v: %s", k, err, clip(a.JSON))
+		}
+		sort.SliceStable(got, func(i, j int) bool { return fmt.Sprint(got[i]["keyIdHash"]) < fmt.Sprint(got[j]["keyIdHash"]) })
+		legacy := append([]*definition.LegacyPillarEntry{}, t.Legacy...)
+		sort.Slice(legacy, func(i, j int) bool { return legacy[i].KeyIdHash.String() < legacy[j].KeyIdHash.String() })
+		want := make([]interface{}, len(legacy))
+		for i, l := range legacy {
+			want[i] = obj{"keyIdHash": l.KeyIdHash.String(), "numPillars": l.PillarCount}
+		}
+		gotList := make([]interface{}, len(got))
+		for i := range got {
+			gotList[i] = got[i]
+		}
+		if path, msg := jsonDiff("", interface{}(gotList), normalize(want)); msg != "" {
+			e.C.Failf(pk(k, topField(path)), "%s: %s: %s\n  answer:   %s\n  expected: %s", k, path, msg, clip(a.JSON), short(want))
+		}
+		if len(legacy) > 0 {
+			e.seen(k, "")
+		}
+		return
+	}
+	k, a := e.point("embedded.swap", e.V.Apis.Swap, "GetAssets")
+	want := obj{}
+	for _, s := range t.Swap {
+		want[s.KeyIdHash.String()] = obj{"znn": share(s.Znn, pct), "qsr": share(s.Qsr, pct)}
+	}
+	if a.Err == "" {
+		// (per entry first, so that the violation is named after the field and not after the key of the entry)
+		var got map[string]json.RawMessage
+		_ = json.Unmarshal(a.JSON, &got)
+		for id, w := range want {
+			if raw, ok := got[id]; ok {
+				if el, err := decodeJSON(raw); err == nil {
+					if path, msg := jsonDiff("", el, normalize(w)); msg != "" {
+						e.C.Failf(pk(k, topField(path)), "%s on %s (epoch %d): entry %s: %s: %s", k, e.V.Name, t.Epoch, id, strings.TrimPrefix(path, "."), msg)
+					}
+				}
+			}
+		}
+		if len(got) != len(want) {
+			e.C.Failf(pk(k, "entries"), "%s on %s: %d entries, the contract storage holds %d: %s", k, e.V.Name, len(got), len(want), clip(a.JSON))
+		}
+	}
+	e.expect(k, a, want)
+	if len(t.Swap) > 0 {
+		e.seen(k, "")
+		if pct < 100 {
+			e.C.Class("legacy-assets-decayed")
+		}
+	}
+}
+
+// -- token, htlc
+
+func pTokenByZts(e *Env, t *Truth) {
+	var custom []types.ZenonTokenStandard
+	for z := range t.Tokens {
+		if z != types.ZnnTokenStandard && z != types.QsrTokenStandard {
+			custom = append(custom, z)
+		}
+	}
+	sort.Slice(custom, func(i, j int) bool { return custom[i].String() < custom[j].String() })
+	z := e.ztsArg("tok.zts", t, custom)
+	k, a := e.point("embedded.token", e.V.Apis.Token, "GetByZts", z)
+	ti := t.Tokens[z]
+	e.expect(k, a, tokenObj(ti))
+	if ti != nil {
+		e.seen(k, "")
+	} else {
+		e.C.Class("not-found " + k.RPCName())
+	}
+}
+
+func pHtlcById(e *Env, t *Truth) {
+	c, v := e.C, e.V
+	projects, _, htlcs, wraps, _ := t.ids()
+	id := e.hashArg("htlc.id", htlcs, joinHashes(projects, wraps))
+	k, a := e.point("embedded.htlc", v.Apis.Htlc, "GetById", id)
+	h := t.Htlcs[id]
+	if h == nil {
+		e.expectErr(k, a, errNonExistent, "no hash time lock has that id")
+		return
+	}
+	e.expect(k, a, htlcObj(h))
+	e.seen(k, "")
+	if types.IsEmbeddedAddress(h.HashLocked) {
+		c.Class("htlc-locked-for-a-contract")
+	}
+	// the lock is named after the send block that created it
+	b := v.ByHash[id]
+	param := new(definition.CreateHtlcParam)
+	if b == nil || b.ToAddress != types.HtlcContract || definition.ABIHtlc.UnpackMethod(param, definition.CreateHtlcMethodName, b.Data) != nil {
+		c.Failf(pk(k, "creating-block"), "%s: the id is not the hash of a Create call on any account chain", k)
+		return
+	}
+	if h.TimeLocked != b.Address || h.TokenStandard != b.TokenStandard || h.Amount.Cmp(b.Amount) != 0 || h.HashLocked != param.HashLocked || h.ExpirationTime != param.ExpirationTime ||
+		h.HashType != param.HashType || h.KeyMaxSize != param.KeyMaxSize || !bytes.Equal(h.HashLock, param.HashLock) {
+		c.Failf(pk(k, "creating-block"), "%s answers %s; the creating block of %v locked %v %v for %v until %d", k, clip(a.JSON), b.Address, b.Amount, b.TokenStandard, param.HashLocked, param.ExpirationTime)
+	}
+}
+
+func pProxyUnlock(e *Env, t *Truth) {
+	c := e.C
+	set := map[types.Address]bool{}
+	for a := range t.Proxy {
+		set[a] = true
+	}
+	addr := e.addrArg("px.addr", sortedAddrs(set))
+	k, a := e.point("embedded.htlc", e.V.Apis.Htlc, "GetProxyUnlockStatus", addr)
+	allowed, ok := t.Proxy[addr]
+	if !ok {
+		allowed = true
+		c.Class("not-found " + k.RPCName())
+	} else {
+		e.seen(k, "")
+		if !allowed {
+			c.Class("proxy-unlock-denied")
+		}
+	}
+	e.expect(k, a, allowed)
+}
+
+func pointMethods() []pointMethod {
+	return []pointMethod{
+		{"accelerator.getProjectById", 4, pProjectById}, {"accelerator.getPhaseById", 3, pPhaseById}, {"accelerator.getVoteBreakdown", 3, pVoteBreakdown},
+		{"accelerator.getPillarVotes", 3, pPillarVotes},
+		{"bridge.getBridgeInfo", 1, pBridgeInfo}, {"bridge.getOrchestratorInfo", 1, pOrchestratorInfo}, {"bridge+liquidity.getSecurityInfo", 2, pSecurityInfo},
+		{"bridge+liquidity.getTimeChallengesInfo", 2, pTimeChallenges}, {"bridge.getNetworkInfo", 3, pNetworkInfo}, {"bridge.getWrapTokenRequestById", 4, pWrapById},
+		{"bridge.getUnwrapTokenRequestByHashAndLog", 4, pUnwrapByHashAndLog}, {"bridge.getFeeTokenPair", 2, pFeeTokenPair}, {"bridge.lists-content", 6, pBridgeLists},
+		{"liquidity.getLiquidityInfo", 1, pLiquidityInfo},
+		{"*.getUncollectedReward", 6, pUncollectedReward}, {"pillar+sentinel.getDepositedQsr", 4, pDepositedQsr}, {"*.getFrontierRewardByPage-content", 2, pRewardHistory},
+		{"pillar.getByOwner", 3, pPillarByOwner}, {"pillar.getByName", 4, pPillarByName}, {"pillar.checkNameAvailability", 3, pNameAvailability},
+		{"pillar.getQsrRegistrationCost", 1, pQsrRegistrationCost}, {"pillar.getDelegatedPillar", 4, pDelegatedPillar}, {"pillar.getPillarEpochHistory-content", 2, pPillarHistory},
+		{"sentinel.getByOwner", 3, pSentinelByOwner},
+		{"plasma.get", 4, pPlasmaGet}, {"plasma.getRequiredPoWForAccountBlock", 4, pRequiredPoW}, {"plasma+stake+liquidity.entries-totals", 3, pEntryTotals},
+		{"swap.getAssetsByKeyIdHash", 3, pSwapByKeyIdHash}, {"swap.getAssets+getLegacyPillars", 2, pSwapAll},
+		{"token.getByZts", 3, pTokenByZts}, {"htlc.getById", 4, pHtlcById}, {"htlc.getProxyUnlockStatus", 3, pProxyUnlock},
+	}
+}
+
+func pickPointView(t *testing.T, c *pbt.C) *View {
+	switch c.Weighted("world", 4, 4, 1, 1, 2) {
+	case 0:
+		return PointView(t, 0)
+	case 1:
+		return PointView(t, 1)
+	case 2:
+		return BigView(t, 0)
+	case 3:
+		return BigView(t, 1)
+	default:
+		return SmallView(c)
+	}
+}
+
+// TestC18Point: the point queries of the embedded apis answer what the contracts hold at the frontier.
+func TestC18Point(t *testing.T) {
+	methods := pointMethods()
+	var weights []int
+	for _, m := range methods {
+		weights = append(weights, m.w)
+	}
+	pbt.Check(t, "C18", func(c *pbt.C) {
+		v := pickPointView(t, c)
+		c.Class("world-" + v.Name)
+		e := &Env{C: c, V: v, ViaServerToo: c.Weighted("via-server", 1, 1) == 1}
+		if e.ViaServerToo {
+			c.Class("also-through-rpc-server")
+		}
+		truth := scanTruth(v)
+		calls := c.Int("calls", 4, 12)
+		for i := 0; i < calls; i++ {
+			m := methods[e.weighted("method", weights...)]
+			m.run(e, truth)
+		}
+	})
 }
 
 var _ = sort.Strings
